@@ -34,8 +34,8 @@ FLOORS = {"non-ascii-string": 0.18, "otf": 0.17, ">=10-attributes": 0.15, "vf-in
 
 XML_OK = st.characters(blacklist_categories=("Cs",), blacklist_characters="".join(chr(i) for i in range(32) if i not in (9, 10, 13)) + "\x7f￾￿")
 text = st.text(alphabet=XML_OK, min_size=1, max_size=12)
-nametext = st.one_of(text, st.text(alphabet=st.sampled_from(list("Aa ()[]{}<>/% （⑴éЖ中\U0001F600\t-.")), min_size=1, max_size=8))
-asciiname = st.text(alphabet="ABCDEFabcdef0123456789-", min_size=1, max_size=20)
+nametext = st.one_of(text, st.text(alphabet=st.sampled_from(list("Aa ()[]{}<>/% （⑴éЖ中\U0001F600\t-.~!|_")), min_size=1, max_size=8))
+asciiname = st.text(alphabet="ABCDEFabcdef0123456789-~!|_", min_size=1, max_size=20)
 num = st.one_of(st.integers(-2000, 2000), st.integers(-4000, 4000).map(lambda k: k / 2), st.floats(-2000, 2000, allow_nan=False).map(lambda v: round(v, 3)))
 posnum = st.one_of(st.integers(0, 3000), st.integers(0, 6000).map(lambda k: k / 2))
 intv = st.integers(-2000, 2000)
@@ -281,6 +281,7 @@ def expected(i):
         del names[16], names[17]
     e["names"] = {k: v for k, v in names.items() if v}
     e["_psname_explicit"] = psn_explicit
+    e["_ps_core"] = "".join(c for c in "%s-%s" % (pfam, psub) if c in ALLOWED and c not in EXC)  # what the documented fallback cannot drop: the legal characters of "family-style"
     e["_uid_explicit"] = g("openTypeNameUniqueID")
     e["_uid_parts"] = (ver.replace("Version ", ""), vend)
     return e
@@ -375,9 +376,11 @@ def run_psname(case, ctx):
         name = postscriptFontNameFallback(f.info)
         if not ps_ok(name):
             bad.append(cp)
+        elif chr(cp) in ALLOWED and chr(cp) not in EXC and name != "A" + chr(cp) + "-Regular":
+            bad.append(cp)  # a legal character is kept as it is
     ctx.count("psname-characters-enumerated", case["hi"] - case["lo"])
     if bad:
-        raise Violation("generated PostScript font name contains a space, control, delimiter or non-ASCII character", family_name_characters=["U+%04X" % c for c in bad[:40]], count=len(bad))
+        raise Violation("generated PostScript font name contains a space, control, delimiter or non-ASCII character, or lost a legal one", family_name_characters=["U+%04X" % c for c in bad[:40]], count=len(bad))
     ctx.nontrivial()
 
 
@@ -501,6 +504,9 @@ def run_case(case, ctx):
             if ps is None or not ps_ok(ps):
                 raise Violation("generated PostScript font name (name ID 6) contains a space, control, delimiter or non-ASCII character", name=ps, family=info.get("familyName"), style=info.get("styleName"),
                                 preferred=[info.get("openTypeNamePreferredFamilyName"), info.get("openTypeNamePreferredSubfamilyName")])
+            it = iter(ps)
+            if not all(c in it for c in e["_ps_core"]):
+                raise Violation("generated PostScript font name (name ID 6) lost a legal character of the family / style names it derives from", name=ps, legal_characters_expected_in_order=e["_ps_core"])
     if flavour == "otf":
         cffname = t["CFF "].cff.fontNames[0]
         if not e["_psname_explicit"] and not ps_ok(cffname):
